@@ -402,8 +402,11 @@ func (w *world) step(a *sess.Act) (bool, error) {
 	where := fmt.Sprintf("%s (%d bytes) in phase %s", line.Text, line.Size, phase)
 
 	// the process (a dying process may still be writing its goroutine dump)
-	if o.Status == "" && o.Closed {
-		w.srv.WaitExit(5 * time.Second)
+	if o.Status == "" && o.Closed && !w.srv.WaitExit(100*time.Millisecond) {
+		// dropped connection: is the process on its way out? Not if it still answers the watcher.
+		if wc := w.conns["w"]; wc == nil || wc.Dead() || wc.Cmd("NOOP", 3*time.Second).Status != "OK" {
+			w.srv.WaitExit(5 * time.Second)
+		}
 	}
 	if w.crashed(where) {
 		return false, nil
@@ -967,6 +970,7 @@ func run(r *ev.Run, tier, replay string) {
 		wg.Add(1)
 		go func(p int) {
 			defer wg.Done()
+			defer sh.clock(fmt.Sprintf("wall_of_worker_%d", p), time.Now())
 			replayBehaviours(r, sh, bs, p, parts, seed, heavy, len(bs)/parts/2+1)
 		}(p)
 	}
@@ -978,11 +982,16 @@ func run(r *ev.Run, tier, replay string) {
 		wg.Add(1)
 		go func(p int) {
 			defer wg.Done()
+			defer sh.clock(fmt.Sprintf("wall_of_heavy_worker_%d", p), time.Now())
 			replayBehaviours(r, sh, hv, p, hparts, seed, heavy, 1)
 		}(p)
 	}
 	wg.Add(1)
-	go func() { defer wg.Done(); walkGraph(r, sh, errrun, seed) }()
+	go func() {
+		defer wg.Done()
+		defer sh.clock("wall_of_error_counter_walk", time.Now())
+		walkGraph(r, sh, errrun, seed)
+	}()
 	wg.Wait()
 
 	classes := map[string]bool{}
